@@ -1,0 +1,67 @@
+//go:build verif
+
+package fanspeedpb
+
+// Machine-checked contracts for this package (comment-only; excluded from normal builds).
+
+//@ property C20
+//@ // ---- preset, preset index and percentage of the fan speed describe the same speed: either a preset of the model's
+//@ // list (index in range, name and percentage those of the preset) or no preset (index -1, empty name) ----
+//@ pure func fsOf(m) = cast(m, *traits.FanSpeed)
+//@ pure func isFS(m) = istype(m, *traits.FanSpeed) && cast(m, *traits.FanSpeed) != nil
+//@ pure func atPreset(ps, v, i) = 0 <= i && i < len(ps) && v.PresetIndex == i && v.Preset == ps[i].Name && (v.Percentage == ps[i].Percentage || feq(v.Percentage, ps[i].Percentage))
+//@ pure func consistent(ps, v) = (v.PresetIndex == 0 - 1 && v.Preset == "") || atPreset(ps, v, v.PresetIndex)
+//@ pure func knownPreset(ps, name) = exists i int :: 0 <= i && i < len(ps) && ps[i].Name == name
+//@
+//@ // o is the stored fan speed, n the updated one (request merged into a copy of o); UpdateFanSpeed has validated n.Preset
+//@ func (*Model).DeriveValues(o, n)
+//@   requires recv != nil && isFS(o) && isFS(n) && fsOf(o) != fsOf(n)
+//@   requires len(recv.presets) <= 2147483647
+//@   requires forall i int :: 0 <= i && i < len(recv.presets) ==> recv.presets[i].Name != ""     // "" means "no preset"
+//@   requires consistent(recv.presets, fsOf(o))
+//@   requires fsOf(n).Preset == "" || knownPreset(recv.presets, fsOf(n).Preset)
+//@   ensures [consistent] consistent(recv.presets, fsOf(n))
+//@   // the same for short preset lists (implied by [consistent]; its counter-models are within the replay driver's reach)
+//@   ensures [consistent-3] len(recv.presets) <= 3 ==> consistent(recv.presets, fsOf(n))
+//@   // precedence preset > index > percentage: the winning field keeps the requested value
+//@   // (an empty preset in the update is "no preset requested", not a request for a preset without a name)
+//@   ensures [preset-wins] old(fsOf(n).Preset) != "" && old(fsOf(n).Preset) != old(fsOf(o).Preset) ==> fsOf(n).Preset == old(fsOf(n).Preset)
+//@   ensures [index-wins] (old(fsOf(n).Preset) == "" || old(fsOf(n).Preset) == old(fsOf(o).Preset)) && old(fsOf(n).PresetIndex) != old(fsOf(o).PresetIndex) && 0 <= old(fsOf(n).PresetIndex) && old(fsOf(n).PresetIndex) < len(recv.presets) ==> fsOf(n).PresetIndex == old(fsOf(n).PresetIndex)
+//@   ensures [percentage-wins] (old(fsOf(n).Preset) == "" || old(fsOf(n).Preset) == old(fsOf(o).Preset)) && old(fsOf(n).PresetIndex) == old(fsOf(o).PresetIndex) ==> fsOf(n).Percentage == old(fsOf(n).Percentage)
+//@   ensures [stored-kept] fsOf(o).Preset == old(fsOf(o).Preset) && fsOf(o).PresetIndex == old(fsOf(o).PresetIndex) && fsOf(o).Percentage == old(fsOf(o).Percentage)
+//@   replay FanDeriveValues(len(recv.presets), recv.presets[0].Name, recv.presets[0].Percentage, recv.presets[1].Name, recv.presets[1].Percentage, recv.presets[2].Name, recv.presets[2].Percentage,
+//@   |   old(fsOf(o).Preset), old(fsOf(o).PresetIndex), old(fsOf(o).Percentage), old(fsOf(n).Preset), old(fsOf(n).PresetIndex), old(fsOf(n).Percentage))
+//@   loop 0 (k):
+//@     invariant 0 <= k && k <= len(recv.presets)
+//@     invariant forall j int :: 0 <= j && j < k ==> recv.presets[j].Name != fsOf(n).Preset
+//@     decreases len(recv.presets) - k
+//@   loop 1 (k):
+//@     invariant 0 <= k && k <= len(recv.presets)
+//@     invariant fsOf(n).PresetIndex == 0 - 1 && fsOf(n).Preset == "" && fsOf(n).Percentage == pre(fsOf(n).Percentage)
+//@     decreases len(recv.presets) - k
+//@
+//@ // an update naming a preset is accepted exactly when the model has that preset
+//@ func (*Model).validateUpdate(fanSpeed) (err)
+//@   requires recv != nil && fanSpeed != nil
+//@   ensures [blank] fanSpeed.Preset == "" ==> err == nil
+//@   ensures [unknown] fanSpeed.Preset != "" && (forall i int :: 0 <= i && i < len(recv.presets) ==> recv.presets[i].Name != fanSpeed.Preset) ==> err != nil
+//@   ensures [known] forall i int :: 0 <= i && i < len(recv.presets) && recv.presets[i].Name == fanSpeed.Preset ==> err == nil
+//@   modifies nothing
+//@   loop 0 (k):
+//@     invariant 0 <= k && k <= len(recv.presets)
+//@     invariant (forall j int :: 0 <= j && j < k ==> recv.presets[j].Name != fanSpeed.Preset)
+//@     decreases len(recv.presets) - k
+//@
+//@ // relative updates: the request's percentage and preset index are offsets from the stored values
+//@ // (the index offset is added without wrap-around; a sum beyond int32 may saturate, which is the same after DeriveValues has
+//@ // capped the index to the preset list)
+//@ pure func sat32(x) = x > 2147483647 ? 2147483647 : (x < 0 - 2147483648 ? 0 - 2147483648 : x)
+//@ func (*ModelServer).UpdateFanSpeed$1(o, n)
+//@   requires isFS(o) && isFS(n) && fsOf(o) != fsOf(n) && request != nil
+//@   ensures [absolute] !request.Relative ==> fsOf(n).Percentage == old(fsOf(n).Percentage) && fsOf(n).PresetIndex == old(fsOf(n).PresetIndex)
+//@   ensures [relative-percentage] request.Relative ==> fsOf(n).Percentage == old(fsOf(n).Percentage) + old(fsOf(o).Percentage)
+//@   ensures [relative-index] request.Relative ==> fsOf(n).PresetIndex == sat32(old(fsOf(n).PresetIndex) + old(fsOf(o).PresetIndex))
+//@   ensures [stored-kept] fsOf(o).Preset == old(fsOf(o).Preset) && fsOf(o).PresetIndex == old(fsOf(o).PresetIndex) && fsOf(o).Percentage == old(fsOf(o).Percentage)
+//@   // the same for a stored index of the default preset list (implied by [relative-index]; counter-models within the replay driver's reach)
+//@   ensures [relative-index-default] request.Relative && 0 <= old(fsOf(o).PresetIndex) && old(fsOf(o).PresetIndex) < 5 ==> fsOf(n).PresetIndex == sat32(old(fsOf(n).PresetIndex) + old(fsOf(o).PresetIndex))
+//@   replay FanRelativeIndex(old(fsOf(o).PresetIndex), old(fsOf(n).PresetIndex))
